@@ -19,7 +19,6 @@ FUNCTIONS = [
     "autoarray.inversion.regularization.regularization_util.reg_split_from",
     "autoarray.inversion.regularization.regularization_util.pixel_splitted_regularization_matrix_from",
     "autoarray.inversion.regularization.constant.Constant.regularization_matrix_from",
-    "autoarray.inversion.regularization.constant.Constant.regularization_weights_from",
     "autoarray.inversion.regularization.constant_zeroth.ConstantZeroth.regularization_matrix_from",
     "autoarray.inversion.regularization.zeroth.Zeroth.regularization_matrix_from",
     "autoarray.inversion.regularization.adaptive_brightness.AdaptiveBrightness.regularization_matrix_from",
@@ -375,7 +374,7 @@ def check_all(ctx, A, E, known=None):
     for k in E:
         # identities, symmetry and dominance are decided in well under a second on an idle core; only the direct definiteness
         # queries get the long per-query timeout
-        ms = long_ms if ("_direct." in k) else min(long_ms, 30000)
+        ms = long_ms if ("_direct." in k) else min(long_ms, 20000)
         ctx.timeout_ms = ms
         ctx.solver.set("timeout", ms)
         if subs and k in A and not (known and k in known):
